@@ -180,9 +180,9 @@ def run(tier, seed):
     chk = Check("C13", tier, seed, "other")
     ok, sites, failing = frame.rule_flow_api()
     chk.add_rule("C13.S.compiled_function_called_only_at_run_time", ok, sites, failing)
-    from ..kernels import c13_factory
+    from ..kernels import c13_factory, c13_call
     from ..kernels.base import run_kernel
-    for k in c13_factory.KERNELS:
+    for k in c13_factory.KERNELS + c13_call.KERNELS:
         chk.add_kernel(run_kernel(k, tier))
     n, fails = kwargs_predicate_complete()
     chk.add_rule("C13.P.kwargs", not fails and n == 128, [f"{n} signature classes (kinds of name/arg_index/signature x **kwargs): exhaustive over the finite domain"], fails[:3], "keyword-forwarding predicate, complete enumeration on the real _call_tensorfactory")
